@@ -37,6 +37,11 @@ PropB(c) == {[e |-> e, ver |-> 0, v |-> 2, slot |-> L1(c, e)] : e \in Epochs}
 SyncB == {[p |-> p, ver |-> 0, v |-> 2] : p \in {x \in Periods : x % 2 = 1}}
 OracleB(c) == [att |-> AttB(c), prop |-> PropB(c), sync |-> SyncB]
 
+\* accounts answers: the lookup fails, nobody is active, one validator is, all are
+MCAnswers(c) == {Answer(TRUE, {}), Answer(FALSE, {}), Answer(FALSE, {1}), Answer(FALSE, c.vals)}
+\* (quick tier: all of them active only to begin with)
+MCAnswersFew(c) == {Answer(TRUE, {}), Answer(FALSE, {}), Answer(FALSE, {1})}
+
 MCOraclesAB(c) == {OracleA(c), OracleB(c)}
 MCOraclesA(c) == {OracleA(c)}
 =============================================================================
